@@ -47,6 +47,7 @@ type Report struct {
 	minimum     map[string]int
 	Corpus      *CorpusResult
 	start       time.Time
+	vacuityDone bool
 }
 
 func NewReport(prop, tier string) *Report {
@@ -143,8 +144,12 @@ func obKey(o *Ob) string {
 
 // Finish applies the vacuity guards and the known-findings file, writes evidence and replay
 // files, prints the protocol lines and returns the process exit code.
-func (r *Report) Finish(verifDir string, seed int64, writeEvidence bool) int {
-	// vacuity guard
+// ApplyVacuity turns "rule matched fewer sites than confirmed by hand" into failing obligations.
+func (r *Report) ApplyVacuity() {
+	if r.vacuityDone {
+		return
+	}
+	r.vacuityDone = true
 	perRule := map[string]int{}
 	for _, o := range r.Obs {
 		perRule[o.Rule]++
@@ -160,6 +165,10 @@ func (r *Report) Finish(verifDir string, seed int64, writeEvidence bool) int {
 				fmt.Sprintf("rule matched %d < %d sites", perRule[k], r.minimum[k]))
 		}
 	}
+}
+
+func (r *Report) Finish(verifDir string, seed int64, writeEvidence bool) int {
+	r.ApplyVacuity()
 	ff, err := loadFindings(verifDir)
 	if err != nil {
 		r.Viol(r.Prop+".findings", "known_findings.json", "-", "known-findings file must be readable", err.Error())
